@@ -24,7 +24,24 @@ let mk (x : node) : int =
 let size_tbl : (int, int) Hashtbl.t = Hashtbl.create 64     (* term -> arena size *)
 let len_tbl : (int, int) Hashtbl.t = Hashtbl.create 64      (* term -> length of its temp file *)
 
-let rec zeros n = if n <= 0 then [] else 0 :: zeros (n - 1)
+let zeros n = let rec go acc n = if n <= 0 then acc else go (0 :: acc) (n - 1) in go [] n
+
+(* The extracted list functions (length, firstn, app) are not tail recursive and the files of the scale family have
+   10^5 .. 10^6 bytes: run with an unlimited stack (re-exec once through the shell; if that is not possible the
+   large cases fall back to the coarse oracles, see [fine_limit]). *)
+let big_stack =
+  match Sys.getenv_opt "C09_DRIVER_STACK" with
+  | Some "unlimited" -> true
+  | Some _ -> false
+  | None ->
+      (try
+         Unix.putenv "C09_DRIVER_STACK" "trying";
+         let self = Sys.executable_name in
+         Unix.execv "/bin/sh" [| "/bin/sh"; "-c";
+           "if ulimit -s unlimited 2>/dev/null; then C09_DRIVER_STACK=unlimited; else C09_DRIVER_STACK=default; fi; export C09_DRIVER_STACK; exec \"$0\" \"$@\"";
+           self |]
+       with _ -> false)
+let fine_limit = if big_stack then 3_000_000 else 150_000
 
 let the_ops : (int, int, int, int, int) ops = {
   size = (fun s -> match Hashtbl.find_opt size_tbl s with
@@ -115,6 +132,7 @@ let show_call (b : int) (c : call) : string =
 let show_listing l = "[" ^ String.concat ";" (List.map (fun (n, s) -> Printf.sprintf "%d:%d" n s) l) ^ "]"
 
 let () =
+  if big_stack then count "driver_runs_with_unlimited_stack";
   iter_cases (fun id c ->
     Hashtbl.reset size_tbl; Hashtbl.reset len_tbl;
     let geti t = int_of_sx (List.hd (args (field t c))) in
@@ -133,11 +151,21 @@ let () =
     let final = List.map (fun e -> match ints_of_sx e with [a; b] -> (a, b) | _ -> failwith "final") (list_of_sx (List.hd (args (field "final" obs)))) in
     let plansame = int_of_sx (List.hd (args (field "plansame" obs))) <> 0 in
     count ("kind_" ^ kind);
+    (* the largest temp file of the case (directory listings) *)
+    let max_file = List.fold_left (fun m l -> List.fold_left (fun m (_, z) -> max m z) m l) 0 (final :: listings) in
+    if max_file >= 1 lsl 16 then count "cases_with_temp_file_over_64KiB";
+    if max_file >= 1 lsl 18 then count "cases_with_temp_file_over_256KiB";
+    if max_file >= 1 lsl 20 then count "cases_with_temp_file_over_1MiB";
+    let multi_boot = List.exists (function ABoot (_, _ :: _) -> true | _ -> false) in
     count (if wrapped then "runs_with_recording_wrapper" else "runs_with_bare_item");
 
     (* ------------------------------------------------------------------ property oracles *)
     let show (k, d) = k ^ ":" ^ d in
-    if fault = "none" then begin
+    if res = ("panic", "crash") then
+      (* written by the supervisor of the harness: the process died during this run *)
+      propfail id (Printf.sprintf "the process dies during the run with hibernation (distance %d, threshold %d, disk %d, fault %s): a panic in a goroutine started by Hibernate / Boot, which the caller of Run cannot recover (a run without hibernation of the same history was not what crashed)"
+                     (geti "dist") (geti "thr") (geti "disk") fault)
+    else if fault = "none" then begin
       if res <> base then
         propfail id (Printf.sprintf "the run with hibernation (distance %d, threshold %d, disk %d) gives %s, the run without gives %s"
                        (geti "dist") (geti "thr") (geti "disk") (show res) (show base))
@@ -159,9 +187,61 @@ let () =
     if not lc then mismatch id "the executed plan violates the branch lifecycle (C04 predicate lifecycle_ok_h)";
     if erase_hb plan = plan0 then count "base_plan_equal" else count "base_plan_differs";
     if List.exists is_hb plan then count "plans_with_hibernation";
+    if multi_boot plan then count "plans_with_multi_branch_boot";
+    if List.length plan > 100 then count "plans_over_100_steps";
+    if List.length plan > 200 then count "plans_over_200_steps";
+    (match List.filter (fun x -> tag x = "opts") (args c) with
+     | o :: _ -> List.iter (fun x -> if int_of_sx (List.hd (args x)) <> 0 then count ("option_" ^ tag x)) (args o)
+     | [] -> ());
+
+    (* ------------------------------------------------------------------ damaged file must surface (also for the bare item)
+       C09_faults_damaged_file_surfaces: every temp file in the (fresh) directory belongs to a sleeping branch, the
+       lifecycle forces its Boot, and Boot of a missing file / a proper prefix fails.  Judged from the tamper events
+       and the directory listing alone, so it needs neither the wrapper nor the stepped model. *)
+    let tamper_evs = List.filter (fun e -> tag e = "tamper") events in
+    List.iter (fun e ->
+        let stp = int_of_sx (List.hd (args e)) in
+        let before = match List.nth_opt listings stp with Some l -> l | None -> [] in
+        let victims = List.tl (args e) in
+        let single = List.exists (fun x -> tag x = "victim" && int_of_sx (List.hd (args x)) > 0) (args (field "fault" c)) in
+        if single then count "tamper_one_victim_file";
+        let damaged = List.filter_map (fun t -> match tag t, args t with
+            | "rm", [n] -> Some (int_of_sx n, "removed")
+            | "trunc", (n :: k :: _) ->
+                let n = int_of_sx n and k = int_of_sx k in
+                (match List.assoc_opt n before with
+                 | Some old when k < old -> Some (n, Printf.sprintf "truncated from %d to %d bytes" old k)
+                 | _ -> None)
+            | _ -> None) victims in
+        (* which position does the victim have in the boot action that reads it back? (wrapper only) *)
+        (match damaged, List.nth_opt plan stp with
+         | [ (n, _) ], Some (ABoot (_, _ :: _) as a) when wrapped ->
+             let calls = List.filter_map (fun e -> match tag e with "hib" -> Some (call_of_sx e) | _ -> None) events in
+             let owner = List.filter_map (fun cl -> match cl.file with
+                 | Some (f, _) when f = n ->
+                     let here = List.filter (fun c2 -> c2.cstep = cl.cstep) calls in
+                     let rec idx j = function [] -> None | c2 :: r -> if c2 == cl then Some j else idx (j + 1) r in
+                     (match idx 0 here, List.nth_opt plan cl.cstep with
+                      | Some j, Some ha -> List.nth_opt (items_of ha) j
+                      | _ -> None)
+                 | _ -> None) calls in
+             (match List.rev owner with
+              | b :: _ ->
+                  let its = items_of a in
+                  let rec pos j = function [] -> -1 | x :: r -> if x = b then j else pos (j + 1) r in
+                  let j = pos 0 its in
+                  if j >= 0 then count (if j = List.length its - 1 then "victim_is_last_branch_of_multi_boot"
+                                        else "victim_is_not_last_branch_of_multi_boot")
+              | [] -> ())
+         | _ -> ());
+        if damaged <> [] && lc && fst res = "ok" then
+          propfail id (Printf.sprintf "before plan step %d temp file %s and the run still succeeds (%s): the damaged file was read back without an error or never read"
+                         stp (String.concat ", " (List.map (fun (n, w) -> Printf.sprintf "%d was %s" n w) damaged)) (show res))
+      ) tamper_evs;
 
     (* ------------------------------------------------------------------ fine correspondence *)
-    if wrapped && lc then begin
+    if wrapped && lc && max_file > fine_limit then count "fine_correspondence_skipped_large_file";
+    if wrapped && lc && max_file <= fine_limit && res <> ("panic", "crash") then begin
       let calls = List.filter_map (fun e -> match tag e with "hib" | "boot" -> Some (call_of_sx e) | _ -> None) events in
       (* oracle: one entry per call that touches the disk, in call order *)
       let entries = List.filter_map (fun cl ->
